@@ -264,10 +264,7 @@ def c11_cases(rng, tier):
 
 
 def c11_known(items, run, g, m):
-    if frontgen.flags_leak(items) and cls(g) == "ERR" and cls(m) == "ERR":
-        return run.known("C11/flags-attribute-never-cleared", "the [flags] attribute is never reset: every struct / message / union / const after a [flags] enum is rejected (or would be parsed as flags)")
-    if any(it["kind"] == "enum" and it["flags"] and it.get("comment") for it in items) and g == m:
-        return run.known("C11/comment-above-flags-attribute-dropped", "a doc comment above the [flags] line of an enum is discarded (the newline after [flags] clears the pending comment)")
+    """no C11 finding is listed any more: the four of the first rounds were repaired (known_findings.json, `fixed`)"""
     return False
 
 
@@ -281,12 +278,18 @@ def check_c11(tier, seed, replay=None):
     rng = SplitMix64(seed).fork("C11")
     cases = c11_cases(rng, tier)
     # hand-written cases for attachments the generator does not produce
-    extra = [("enum E { A = 1; // about A\n B = 2;\n}\n", "C11/enum-trailing-comment-attaches-to-next-member",
+    extra = [("enum E { A = 1; // about A\n B = 2;\n}\n", None,
               "OK ; imports  ; gopackage  ; enum 45 c= t=75696e743332 u=true ;  opt 41 c= dm= d=false v=0 uv=1 ;  opt 42 c= dm= d=false v=0 uv=2"),
              ("struct S { int32 a; // about a\n int32 b;\n}\n", None,
               "OK ; imports  ; gopackage  ; struct 53 c= op=0 ro=false ;  field 61 c= dm= d=false S:696e743332 [] ;  field 62 c= dm= d=false S:696e743332 []"),
-             ("[opcode(\"abcd\")]\nimport \"x.bop\"\nstruct S { }\n", "C11/opcode-survives-an-import-line",
-              "OK ; imports 782e626f70 ; gopackage  ; struct 53 c= op=0 ro=false")]
+             ("enum E { A = 1; /* b */ /* c */ // about A\n // about B\n B = 2; /* tail */ }\n", None,
+              "OK ; imports  ; gopackage  ; enum 45 c= t=75696e743332 u=true ;  opt 41 c= dm= d=false v=0 uv=1 ;  opt 42 c=2061626f75742042 dm= d=false v=0 uv=2"),
+             ("// doc\n[flags]\nenum F { A = 1; }\nstruct X { int32 a; }\nenum G { B = 3; }\n", None,
+              "OK ; imports  ; gopackage  ; struct 58 c= op=0 ro=false ;  field 61 c= dm= d=false S:696e743332 [] ; enum 46 c=20646f63 t=75696e743332 u=true ;  opt 41 c= dm= d=false v=0 uv=1 ; "
+              "enum 47 c= t=75696e743332 u=true ;  opt 42 c= dm= d=false v=0 uv=3"),
+             # an attribute above an import annotates nothing: not a well-formed text, rejected since the repair
+             ("[opcode(\"abcd\")]\nimport \"x.bop\"\nstruct S { }\n", None, "ERR"),
+             ("[flags]\nimport \"x.bop\"\nenum S { A = 1; }\n", None, "ERR")]
     ops = ["READ -1 %s" % hexs(txt) for items, L, txt in cases] + ["READ -1 %s" % hexs(t) for t, _, _ in extra]
     gl, ml = both(ops)
     if isinstance(gl, BrokenTie):
@@ -313,10 +316,7 @@ def check_c11(tier, seed, replay=None):
             run.sample({"text": txt[:300], "file": g[:200]})
     for (t, key, exp), g, m in zip(extra, gl[len(cases):], ml[len(cases):]):
         n += 1
-        if g != exp:
-            if key and g == m and run.known(key, {"C11/enum-trailing-comment-attaches-to-next-member": "an enum member's trailing // comment is attached to the NEXT member",
-                                                  "C11/opcode-survives-an-import-line": "an [opcode] attribute followed by an import line is applied to the definition after the import"}[key]):
-                continue
+        if (cls(g) != "ERR" or g != m) if exp == "ERR" else g != exp:
             found = True
             run.violation({"what": "ReadFile's File differs from what the text says", "text": t, "expected": exp, "impl": g[:600], "model": m[:600]})
     run.count("evaluations", n)
@@ -383,6 +383,23 @@ def inject(items, rng):
             c[i]["branches"][0]["def"]["name"] = tops[0]
             out.append(("duplicate-definition-name", "union-branch-vs-top-level", c))
             break
+    if len(unions) >= 2:
+        c = clone()
+        c[unions[1]]["branches"][0]["def"]["name"] = c[unions[0]]["branches"][0]["def"]["name"]
+        out.append(("duplicate-definition-name", "union-branch-vs-branch-of-another-union", c))
+    for i in unions:
+        c = clone()
+        c[i]["branches"][0]["def"]["name"] = c[i]["name"]
+        out.append(("duplicate-definition-name", "union-branch-vs-its-own-union", c))
+        laters = [it["name"] for it in items[i + 1:] if it["kind"] in ("struct", "message", "enum", "union")]
+        if laters:
+            c = clone()
+            c[i]["branches"][0]["def"]["name"] = laters[-1]
+            out.append(("duplicate-definition-name", "union-branch-vs-later-definition", c))
+        c = clone()
+        c[i]["branches"][0]["def"]["name"] = "uint16"
+        out.append(("definition-named-like-a-primitive", "union-branch uint16", c))
+        break
     for i in enums:
         if len(items[i]["members"]) >= 2:
             c = clone()
@@ -427,9 +444,6 @@ def inject(items, rng):
             c = clone()
             c[i]["branches"][1]["disc"] = c[i]["branches"][0]["disc"]
             out.append(("duplicate-union-index", "union", c))
-        c = clone()
-        c[i]["branches"][0]["disc"] = 0
-        out.append(("union-index-zero", "union", c))
         break
     ops_ = [i for i, it in enumerate(items) if it["kind"] in ("struct", "message", "union")]
     if len(ops_) >= 2:
@@ -475,24 +489,15 @@ def inject(items, rng):
 C13_KNOWN = {
     ("message-index-zero", None): ("C13/message-index-zero-accepted", "a message field with index 0 (the wire terminator) is accepted"),
     ("undefined-type", "union-branch"): ("C13/undefined-type-inside-union-branch-accepted", "types used by the fields of a union branch are not checked for definedness (the field is then silently not encoded)"),
-    ("duplicate-definition-name", "union-branch-vs-top-level"): ("C13/union-branch-name-not-checked-against-top-level", "a union branch may be named like a top-level definition"),
-    ("union-index-zero", None): ("C13/message-index-zero-accepted", "index 0 accepted"),
     ("const-not-assignable", "out-of-range"): ("C13/out-of-range-integer-const-accepted", "an integer const literal outside its type's range is accepted with a warning only (uint8 = 256, uint8 = -1 is rejected, int16 = 40000)"),
-    ("duplicate-field-name", "union-branch"): ("C13/union-branch-fields-not-checked", "duplicate field names inside a union branch are not detected"),
 }
 
 
 def c13_known_key(klass, site):
     if klass == "message-index-zero":
         return C13_KNOWN[("message-index-zero", None)]
-    if klass == "union-index-zero":
-        return ("C13/union-index-zero-accepted", "a union branch with discriminator 0 is accepted")
     if klass == "undefined-type" and site.startswith("union-branch"):
         return C13_KNOWN[("undefined-type", "union-branch")]
-    if klass == "duplicate-definition-name" and site == "union-branch-vs-top-level":
-        return C13_KNOWN[("duplicate-definition-name", "union-branch-vs-top-level")]
-    if klass == "duplicate-field-name" and site.startswith("union-branch"):
-        return C13_KNOWN[("duplicate-field-name", "union-branch")]
     if klass == "const-not-assignable" and any(x in site for x in ("uint8 = 256", "int16 = 40000", "uint8 = -1")):
         return C13_KNOWN[("const-not-assignable", "out-of-range")]
     if klass == "const-not-assignable" and site.startswith("date"):
